@@ -215,6 +215,7 @@ impl<'a> Tr<'a> {
             (r.clone(), L::atom("()"), Ty::Unit)
         } else {
             let q = self.fresh("q");
+            self.tuple_state = true; // the result may go unused
             (format!("({r}, {q})"), L::atom(q), ret.clone())
         };
         let mut call = format!("{lean} {read}");
@@ -235,6 +236,11 @@ impl<'a> Tr<'a> {
         parts.extend(m.args.iter());
         self.effect_pre(lets, sp, &[&root, "self"], &parts)?;
         Ok((value, vt))
+    }
+
+    /// is `x` a parameter whose declared type is a generic `E: Into<T>` of the function?
+    fn into_var(&self, env: &Env, x: &str) -> bool {
+        self.into_params.iter().any(|p| p == x) && self.lookup(env, x).is_some()
     }
 
     /// a bind: `match opt with | none => exit | some name => …`; the value is `name`
@@ -287,6 +293,19 @@ impl<'a> Tr<'a> {
                 let n = p.path.segments[1].ident.to_string();
                 if let Some((v, ty)) = self.int_const(&t, &n) {
                     return Ok((L::atom(v), ty));
+                }
+                if let Some(Ok(vs)) = self.enum_variants(&t) {
+                    if let Some((_, ftys)) = vs.iter().find(|(v, _)| *v == n) {
+                        if !ftys.is_empty() {
+                            return self.unsupported(e.span(), "enum constructor as a function value (only as the second argument of `map_or`)");
+                        }
+                        let ty = match self.named(&t) {
+                            Some(ty) => ty,
+                            None => return self.err(e.span(), format!("no Lean type given for the Rust type `{t}` (use --type {t}=<LeanType>)")),
+                        };
+                        let l = self.lean_variant(&t, &n, &[]);
+                        return Ok((if l.contains(' ') { L::comp(l) } else { L::atom(l) }, ty));
+                    }
                 }
                 match self.find_prim(&t, &n) {
                     Some(pr) if pr.args.is_none() => self.apply_prim(&pr, vec![], e.span()),
@@ -607,6 +626,22 @@ impl<'a> Tr<'a> {
         if segs.len() != 2 {
             return self.unsupported(sp, "function call");
         }
+        // ---- a variant of an enum of this file with fields
+        if let Some(Ok(vs)) = self.enum_variants(&tname) {
+            if let Some((_, ftys)) = vs.iter().find(|(v, _)| *v == fname) {
+                let ty = match self.named(&tname) {
+                    Some(ty) => ty,
+                    None => return self.err(sp, format!("no Lean type given for the Rust type `{tname}` (use --type {tname}=<LeanType>)")),
+                };
+                let mut want = vec![];
+                for t in ftys {
+                    want.push(self.ty(t)?);
+                }
+                let args = self.args_expected(&c.args, &want, env, &format!("`{tname}::{fname}`"), sp)?;
+                let l = self.lean_variant(&tname, &fname, &args.iter().map(|a| a.arg()).collect::<Vec<_>>());
+                return Ok((L::comp(l), ty));
+            }
+        }
         // ---- translated earlier in this run
         if let Some(s) = self.sigs.iter().find(|s| s.ty == tname && s.name == fname).cloned() {
             if s.has_self || s.has_panic {
@@ -878,6 +913,26 @@ impl<'a> Tr<'a> {
                 }
                 Ok((L::comp(format!("optUnwrap {}", r.arg())), (**inner).clone()))
             }
+            (Ty::Opt(inner), "map_or", 2) => {
+                // o.map_or(d, f) with `f` an enum constructor `E::V` or a closure `|x| e`
+                let inner = (**inner).clone();
+                let (d, dt) = self.expr(&m.args[0], env)?;
+                let x = self.fresh("x");
+                let f = match &m.args[1] {
+                    Expr::Path(p) if p.qself.is_none() && p.path.segments.len() == 2 => {
+                        let en = self.type_name(&p.path.segments[0].ident.to_string());
+                        let v = p.path.segments[1].ident.to_string();
+                        match self.enum_variants(&en) {
+                            Some(Ok(vs)) if vs.iter().any(|(n, f)| *n == v && f.len() == 1) => format!("fun {x} => {}", self.lean_variant(&en, &v, &[x.clone()])),
+                            _ => return self.unsupported(sp, "second argument of `map_or` (only a one-field enum constructor or a closure)"),
+                        }
+                    }
+                    c @ Expr::Closure(_) => self.arg_expected(c, &Ty::Fn(vec![inner], Box::new(dt.clone())), env)?.0.s,
+                    _ => return self.unsupported(sp, "second argument of `map_or` (only a one-field enum constructor or a closure)"),
+                };
+                Ok((L::comp(format!("Option.elim {} {} ({f})", r.arg(), d.arg())), dt))
+            }
+            (_, "into", 0) if matches!(recv, Expr::Path(p) if p.path.get_ident().map(|i| self.into_var(env, &i.to_string())).unwrap_or(false)) => Ok((r, rt.clone())),
             (Ty::Opt(_), "is_some", 0) => Ok((L::comp(format!("Option.isSome {}", r.arg())), Ty::Bool)),
             (Ty::Opt(_), "is_none", 0) => Ok((L::comp(format!("Option.isNone {}", r.arg())), Ty::Bool)),
             (Ty::Named { rust, .. }, _, _) => {
